@@ -1,6 +1,7 @@
+use crate::sync::RwLock;
 use crate::{Act, Branch, Step, Vars, Workflow};
 use serde::{Deserialize, Serialize};
-use std::sync::{Arc, RwLock, Weak};
+use std::sync::{Arc, Weak};
 
 use super::{node_tree, visit::VisitRoot};
 
